@@ -21,7 +21,7 @@ Lexemes ==
        P_("+"), P_("-"), P_("*"), P_("="), P_("!="), P_("<"), P_("<="), P_(">"), P_(">="), P_("|"), P_("("), P_(")") >>
   ELSE IF Alphabet = "lex" THEN
     << N_(<<"_","x">>), N_(<<"a">>), [k |-> "numdot", v |-> NInt(1)], [k |-> "num", v |-> Rat(1, 2)], [k |-> "num", v |-> Rat(3, 2)], P_("/"), P_("+"), P_("("), P_(")"), P_("@"),
-       [k |-> "var", pre |-> "p", lo |-> <<"v">>], [k |-> "lit", s |-> <<"sp", "w2">>], [k |-> "qname", pre |-> "p", lo |-> <<"c","o","u","n","t">>], N_(<<"w2","a">>) >>
+       [k |-> "var", pre |-> "p", lo |-> <<"v">>], [k |-> "lit", s |-> <<"\"", "sp", "w2", "\"">>], [k |-> "lit", s |-> <<"'">>], [k |-> "qname", pre |-> "p", lo |-> <<"c","o","u","n","t">>], N_(<<"w2","a">>) >>
   ELSE
     << N_(<<"a">>), N_(<<"a","-","b">>), N_(<<"a",".","1">>), N_(<<"#","o","b","j">>), N_(<<"n","o","d","e">>), N_(<<"s","e","l","f">>), N_(<<"c","o","m","m","e","n","t">>),
        N_(<<"p","r","o","c","e","s","s","i","n","g","-","i","n","s","t","r","u","c","t","i","o","n">>), N_(<<"c","o","u","n","t">>), N_(<<"p","a","r","e","n","t">>),
